@@ -18,10 +18,11 @@ def register(R):
     # a cleanup / user function called through _run_user: same rules
     R.shape("UserStage", __call__=dict(STAGE))
     R.shape("AMethod")
+    R.function("test_method_of", ["val"], "val")
     R.shape("Sentinel")
     R.fields_of("AMethod", __unittest_skip__="maybe any", __unittest_skip_why__="maybe any")
     R.shape("ACase",
-            _get_test_method=dict(signature="", returns="AMethod", pure=True, noalloc=True),
+            _get_test_method=dict(signature="", returns="AMethod", pure=True, noalloc=True, value="test_method_of(self)"),
             _run_setup=dict(STAGE, signature="result"),
             _run_test_method=dict(STAGE, signature="result"),
             _run_teardown=dict(STAGE, signature="result"),
@@ -140,9 +141,11 @@ def register_core(R):
     HR0 = "old(hist(self.result))"
     SKIPPED = "(truthy(ite(fieldof(self.case, '__unittest_skip__') is absent(), False, fieldof(self.case, '__unittest_skip__'))) or " \
               "truthy(ite(fieldof(TM, '__unittest_skip__') is absent(), False, fieldof(TM, '__unittest_skip__'))))"
-    R.function("test_method_of", ["val"], "val")
+    # a skip decorator (unittest.skip / testtools.skip, on the class or the method) always records a reason next to the flag ('' is one)
+    WHY = "(fieldof(%s, '__unittest_skip__') is absent() or (fieldof(%s, '__unittest_skip_why__') is not absent() and fieldof(%s, '__unittest_skip_why__') is not None))"
+    WHY_OK = [WHY % (("self.case",) * 3), WHY % (("test_method_of(self.case)",) * 3)]
     R.contract(R_ + "_run_core", props=["C01", "C02", "C03", "C07"], context=dict(CTX, H0="hist(self.case)"),
-               requires=DISTINCT + ["self.case is not self.result"], frame_hist=True,
+               requires=DISTINCT + ["self.case is not self.result"] + WHY_OK, frame_hist=True,
                modifies=["list(self.case._cleanups)", "list(self._exceptions)", "$hist", "self.case.force_failure"],
                ensures=[
                    "prefix_of(%s, %s)" % (X0, X),
@@ -167,7 +170,7 @@ def register_core(R):
                ])
     # ---- the bracket ----------------------------------------------------------------------------------------------------
     R.contract(R_ + "_run_prepared_result", props=["C01", "C03"], params={"result": "ExtResult"}, context={"H0": "hist(result)"},
-               requires=DISTINCT + [SKIP_OK, "self.case is not result",
+               requires=DISTINCT + WHY_OK + [SKIP_OK, "self.case is not result",
                                     # every class in the handler table derives from Exception (true of the stock table)
                                     "all(is_cls(h[0]) and subclass_of(h[0], Exception) for h in self.handlers)",
                                     # ... and the table has its documented catch-all entry for Exception
